@@ -106,13 +106,14 @@ known("C03", "heading-or-table-row/relayout:space-runs",
       "headings and table cells are not re-flowed, so runs of spaces inside them survive: '## a   b' and '| b   c |' are output as is (in any container). Not repaired: would change heading/table rendering broadly.")
 
 # ---------------------------------------------------------------- known: footnote-first-line-list, heading-then-block-in-tight-item
-_FN = ("a list that starts on the label line of a footnote definition ('[^1]: - b' / '    - c' / '' / '    d'): Marko (the parser flowmark uses) reads 4-space-indented continuation lines as "
-       "belonging to the first item, the renderer writes them at the item's content indent (6 spaces, correct by CommonMark + GFM footnotes), and Marko then reads that output differently again "
-       "(the paragraph moves into the nested item): reformat_text twice gives a different document. The cause is the indentation handling of Marko's footnote extension; no small repair in flowmark.")
+_FN = ("a multi-item list inside a footnote definition ('[^1]: - b' / '    - c' / '' / '    d', or the same list after a first paragraph): Marko's footnote extension (the parser flowmark uses) "
+       "reads the second item, written at the footnote's 4-space indent, as nested in the first ('[^n]: i / (blank) /     - a /     - d' parses as a[d]); the renderer writes what was parsed at the "
+       "item's content indent (6 spaces), and when the first item holds several blocks and a paragraph follows, Marko reads *that* output differently again (the paragraph moves into the nested "
+       "item): reformat_text twice gives two documents, and list-spacing obligations checked by re-parsing fail. The cause is the indentation handling of Marko's footnote extension; no small repair "
+       "inside flowmark. C10 collapses every obligation of a footnote-wrapped list skeleton into one key for this reason.")
 for _p, _k in [("C01", "shape:same-kinds:text-or-attr"), ("C02", "idempotent:rebreak"), ("C02", "idempotent:space-runs"), ("C02", "idempotent:blank-lines"), ("C02", "idempotent:content"),
                ("C03", "history:rebreak"), ("C03", "history:blank-lines"), ("C03", "history:content"), ("C03", "history:space-runs"),
-               ("C10", "list-spacing:preserve-as-authored"), ("C10", "list-spacing:structure:loose"), ("C10", "list-spacing:structure:preserve"), ("C10", "list-spacing:structure:tight"),
-               ("C10", "list-spacing:tight-only-single-block-lists")]:
+               ("C10", "list-spacing")]:
     known(_p, f"footnote-first-line-list/{_k}", _FN)
 # ---------------------------------------------------------------- known: sentence-initial-marker, escaped-numeral-after-soft-break, code-span-inner-space-runs
 _SM = ("semantic mode wraps every sentence separately, and markdown_escape_word is only applied to words that start a continuation line *within* a sentence: the first word of a sentence that "
